@@ -7,8 +7,13 @@ void vh_case_seed(const vh_args_t *a, long idx);
  * recorded as {"e":"crash",...} and the driver goes on with the next case. */
 int vh_case_fork(long idx);   /* 1: run the case now (child or no-fork mode); 0: case already done */
 void vh_case_end(void);
-#define VH_CASE(idx) if (vh_case_fork(idx)) {
-#define VH_CASE_END vh_case_end(); }
+/* environments (C10): vh_npass = 2 runs every case twice in the same process - a muted warm-up pass that
+ * leaves freed blocks of exactly the sizes the case needs in the block cache, then (after filling every
+ * cached block with ones) the logged pass, with the same random stream */
+extern int vh_npass, vh_pass;
+void vh_pass_begin(void);
+#define VH_CASE(idx) if (vh_case_fork(idx)) { for (vh_pass = vh_npass; vh_pass > 0; vh_pass--) { vh_pass_begin();
+#define VH_CASE_END } vh_case_end(); }
 extern int vh_nofork;
 
 int fam_mul(const vh_args_t *a);
@@ -36,4 +41,5 @@ int fam_kernels(const vh_args_t *a);
 int fam_alloc(const vh_args_t *a);
 int fam_fault(const vh_args_t *a);
 int fam_io(const vh_args_t *a);
+int fam_baddims(const vh_args_t *a);
 #endif
